@@ -7,6 +7,8 @@ the removed worker id; every queueing on the no-capacity branch by PREPARING; a 
 RUNNING only through the same helper when it is drained (so PREPARING precedes RUNNING for it);
 (R2) NOT_RUNNING is placed before the tick's output commands; the collect re-run path publishes
 neither; (R3) an InputRequiredEvent returned by a step produces exactly one publication.
+Also (R1) every command a reducer returns (per tick and from rewind_in_progress at resume) is executed through process_command:
+no iteration over the command list can skip it (state changes are commands).
 Not decided: interleaving of publications of different ticks (sequential by construction, C11).
 """
 
@@ -40,6 +42,9 @@ def run(chk) -> None:
     repo = chk.repo
     from ._engine import engine_view
     chk.extra["helpers_inlined"] = engine_view(repo)
+    # state changes are commands: the runner must execute every command of every reducer result, also those of the rewind at resume
+    from ._engine import commands_fully_processed
+    commands_fully_processed(chk, "C35.R1")
     m, add = repo.func(f"{CL}:_add_or_enqueue_event")
     cfg = CFG(add)
     stp = param(add, 2)
@@ -156,6 +161,10 @@ def run(chk) -> None:
 
 
 TWINS = [
+    Twin("resume restarts the rewound workers directly and drops the other rewind commands", CL_REL, "            try:\n                await self.process_command(command)\n            except Exception:\n                await self.cleanup_tasks()\n                raise\n",
+         "            if isinstance(command, CommandRunWorker):\n                self.run_worker(command)\n", "C35.R1"),
+    Twin("publications of a tick skipped while the run is stopping", CL_REL, "        for command in commands:\n            try:\n                result = await self.process_command(command)\n",
+         "        for command in commands:\n            if isinstance(command, CommandPublishEvent) and not self.state.is_running:\n                continue\n            try:\n                result = await self.process_command(command)\n", "C35.R1"),
     Twin("running not published", CL_REL, "        commands.append(CommandRunWorker(step_name=step_name, event=event.event, id=id))\n        commands.append(\n            CommandPublishEvent(\n                StepStateChanged(\n                    step_state=StepState.RUNNING,", "        commands.append(CommandRunWorker(step_name=step_name, event=event.event, id=id))\n        (\n            CommandPublishEvent(\n                StepStateChanged(\n                    step_state=StepState.RUNNING,", "C35.R1"),
     Twin("running with wrong worker", CL_REL, "                    input_event_name=type(event.event).__name__,\n                    worker_id=str(id),", "                    input_event_name=type(event.event).__name__,\n                    worker_id=str(len(state.in_progress)),", "C35.R1"),
     Twin("worker id from length", CL_REL, "id = id_candidates[0]", "id = len(state.in_progress)", "C35.R1"),
